@@ -22,8 +22,9 @@ def componentize(doc: dict, r, p: float, chain: bool):
     """Move a random subset of inline parameters / request bodies / responses into components and refer to them."""
     d = copy.deepcopy(doc)
     comp = d.setdefault("components", {})
-    n = {"parameters": 0, "requestBodies": 0, "responses": 0}
+    n = {"parameters": 0, "requestBodies": 0, "responses": 0, "shared_use_sites": 0}
     k = 0
+    seen_params = {}
     for path, item in d["paths"].items():
         holders = [item] + [item[m] for m in docs.METHODS if isinstance(item.get(m), dict)]
         for h in holders:
@@ -31,9 +32,15 @@ def componentize(doc: dict, r, p: float, chain: bool):
             if isinstance(ps, list):
                 for i, prm in enumerate(ps):
                     if isinstance(prm, dict) and "$ref" not in prm and r.random() < p:
-                        k += 1
-                        key = f"Prm{k}"
-                        comp.setdefault("parameters", {})[key] = prm
+                        sig = json.dumps(prm, sort_keys=True)
+                        if sig in seen_params:
+                            key = seen_params[sig]  # one reusable component referenced from several use sites
+                            n["shared_use_sites"] += 1
+                        else:
+                            k += 1
+                            key = f"Prm{k}"
+                            seen_params[sig] = key
+                            comp.setdefault("parameters", {})[key] = prm
                         ps[i] = {"$ref": f"#/components/parameters/{key}"}
                         n["parameters"] += 1
             b = h.get("requestBody")
@@ -136,6 +143,8 @@ def main() -> int:
         bases.append((f"random:{i}", d, feats))
     for l, d in docs.matrix_docs()[:: (6 if quick else 1)]:
         bases.append((f"matrix:{l}", d, {"matrix", l}))
+    for l, d in docs.sharing_docs():
+        bases.append((l, d, {"sharing", l}))
     jobs, info = [], {}
     for bi, (label, d, feats) in enumerate(bases):
         def add(kind, doc, extra=None, **kw):
@@ -210,6 +219,44 @@ def main() -> int:
                 from ._ops import one_flag
                 vd.violation("ref_vs_inline_behaviour_differs" + (":" + one_flag(fl) if fl else ""), f"{bases[bi][0]}: {pname}.{prop} -> {tgt}: by reference {oa[1][:120]} vs inline copy {ob[1][:120]}", {"ref_doc": ja["doc"], "inline_doc": jb["doc"], "value": aa["value"]})
         ev.seen(("C20b", tuple(sorted(bases[bi][2]))[:8]))
+    # (c') a dangling / remote reference inside a model that shares a referenced schema with other models: only that
+    #      model and its dependants may change
+    from .c08 import dependants, insert_bad, owner_files
+    cjobs, cinfo = [], {}
+    for bi, (label, d, feats) in enumerate(bases):
+        if not (label.startswith("sharing") or bi % 5 == 0):
+            continue
+        for bad_key in ("dangling_ref", "remote_ref", "url_ref"):
+            out = insert_bad(d, r, "existing_model_sharing_a_reference", bad_key, bi * 10)
+            if out is None:
+                continue
+            d2, touched, _, desc = out
+            j0 = run.job(d, want=["tree", "manifest"])
+            j1 = run.job(d2, want=["tree"])
+            j0["name"] = j1["name"] = f"pkg{bi}"
+            cinfo[j1["id"]] = (bi, j0["id"], touched, bad_key)
+            cjobs += [j0, j1]
+    cres = dict(zip([j["id"] for j in cjobs], run.map(cjobs, timeout=300)))
+    for j in cjobs:
+        if j["id"] not in cinfo:
+            continue
+        bi, base_id, touched, bad_key = cinfo[j["id"]]
+        b0, b1 = cres[base_id], cres[j["id"]]
+        if any(x.get("_error") or x.get("exc") or not x.get("accepted") for x in (b0, b1)) or b0.get("diags"):
+            continue
+        ev.count("shared_model_badref_pairs")
+        dep, dep_ops = dependants(bases[bi][1], touched)
+        exempt, exempt_classes = owner_files(b0["manifest"], dep, dep_ops)
+        w = {"base": bases[bi][1], "variant": j["doc"], "kind": f"shared_model:{bad_key}", "touched": sorted(touched)}
+        if not b1.get("diags"):
+            vd.violation(f"no_diagnostic:schema_{bad_key}", f"{bases[bi][0]}: a {bad_key} inside model {sorted(touched)} produced no diagnostic", w)
+        for rel, text in b0["tree"].items():
+            if rel in exempt or rel == "models/__init__.py":
+                continue
+            if b1["tree"].get(rel) != text:
+                vd.violation(f"unrelated_changed:schema_{bad_key}:{artefact_kind(rel)}", f"{bases[bi][0]}: {rel} {'disappeared' if rel not in b1['tree'] else 'changed'} although it does not depend on {sorted(touched)} (dependants: {sorted(dep)[:6]})", dict(w, file=rel))
+                break
+        ev.seen(("C20c2", bad_key, tuple(sorted(bases[bi][2]))[:6]))
     rs = run.map(jobs, timeout=300)
     by = {}
     for j, res in zip(jobs, rs):
